@@ -355,7 +355,37 @@ def dim_dependent(ctx, rule="R14.5"):
     ctx.floor(rule, "default_opt_arg_bounds overrides inspected", n, 8)
 
 
+PARAM_FIELDS = {"_var", "_len_scale", "_nugget", "_anis", "_angles", "_rescale", "_dim", "OPTARG[*]"}
+
+
+def no_shared_parameter_arrays(ctx, rule="R14.8"):
+    """A parameter field that shares memory with an array of the caller can be changed from outside without any check running
+    (and in-place normalisation inside the model writes into the caller's data)."""
+    from .. import alias
+    from .C20 import public_entries
+
+    prog = ctx.prog
+    an = alias.Analyzer(prog)
+    an.run()
+    cm = prog.cls(BASE, "CovModel")
+    entries = public_entries(prog, an)
+    n = 0
+    for fq in sorted(entries):
+        m, fn, ci, kind = an.funcs[fq]
+        if ci is None or not ci.is_subclass_of(cm):
+            continue
+        for attr, labs in sorted(an.summ[fq].store.items()):
+            ps = sorted(l for l in labs if l.startswith("P:"))
+            if attr in PARAM_FIELDS:
+                n += 1
+                ctx.check(not ps, rule, fq, "self.%s does not share memory with an argument (may alias: %s)" % (attr, ps), "shared:%s:%s" % (attr, ",".join(ps)))
+            elif ps:
+                ctx.note(rule, "%s keeps a reference to its argument in self.%s (%s): not a parameter value, recorded only" % (fq, attr, ps))
+    ctx.floor(rule, "parameter-field stores by public entry points", n, 8)
+
+
 def run(ctx):
+    no_shared_parameter_arrays(ctx)
     from ..small import none_default_rule
 
     none_default_rule(ctx, "R14.7", ["covmodel/"], 20)
